@@ -10,12 +10,22 @@
               (this includes compaction: pack must rename edges, inputs and outputs consistently)
            L2 SubgraphOK for subgraph_from_vertices
            L1 names: the names handed out follow the transcribed allocators (hole stack / fresh counter)
-   aside : a clone taken earlier, observed at the end: L2 CloneIndependent *)
-EXTENDS TraceLib, ZXGraph
+   aside : a clone taken earlier, observed at the end: L2 CloneIndependent
+   Histories recorded with --ext (API-coverage gaps #18, #19 and the C09 / C10 rows of docs/api_audit.md) additionally carry
+     - `x` inside every observable: the remaining queries of the interface      L2 InvOKx (each consistent with the enumerated graph), SameAnswers
+     - operations add_bnd (add_edge, inputs_mut / outputs_mut), add_vph (add_vertex_with_phase), push_input, bnd_remove, adjoint, x_to_z,
+       plug_vertex, plug_input(s), plug_output(s), make_bipartite, copy, append_x / plug_x (other of the OTHER backend type):
+       judged like every other operation by SameOutcome and Refines against the transcriptions of spec/Compose.tla / ZXGraph.tla
+       in tag space; copy by L2 CopyOK
+     - Parity / Expr values built with every constructor and operator of params.rs as arguments of set_vars / add_to_vars /
+       mul_sf (model: PXor, Lin, QuadCode on the denoted parity), get_scalar_factor read back (L2 GetSFOK), and the pure operation
+       par_alg                                                                  L2 ParAlgOK, L1 ParityNormalForm *)
+EXTENDS TraceLib, Compose
 VARIABLES l, a, crd, holes, freshv, pv, pvi, asides, viol, drift, stats
 vars == <<l, a, crd, holes, freshv, pv, pvi, asides, viol, drift, stats>>
 Init == l = 1 /\ a = EmptyG /\ crd = <<>> /\ holes = <<>> /\ freshv = 0 /\ pv = <<>> /\ pvi = 0 /\ asides = <<>> /\ viol = <<>> /\ drift = <<>>
-        /\ stats = [histories |-> 0, ops |-> 0, nontrivial |-> 0, packs |-> 0, names_predicted |-> 0]
+        /\ stats = [histories |-> 0, ops |-> 0, nontrivial |-> 0, packs |-> 0, names_predicted |-> 0,
+                    xobs |-> 0, ext_ops |-> 0, plugs |-> 0, par_algs |-> 0, par_unsorted |-> 0, par_unsorted_wrong |-> 0, from_default |-> 0]
 
 \* ---------- internal consistency of one logged observable ----------
 Names(o) == {o.verts[i].name : i \in 1..Len(o.verts)}
@@ -46,6 +56,43 @@ InvOK(o) ==
   /\ (o.found_h = <<>>) = (\A t \in EdgeSet(o) : t[3] # "H")
   /\ (o.found_h # <<>> => <<o.found_h[1], o.found_h[2], "H">> \in EdgeSet(o))
 
+\* ---------- the extended observable (--ext): every remaining query agrees with the enumerated graph ----------
+\* the parity a logged variable list denotes: a variable listed twice cancels (From<Vec<Var>> keeps duplicates, params.rs:85-92)
+ParOdd(vs, c) == <<{v \in ToSet(vs) : Cardinality({i \in 1..Len(vs) : vs[i] = v}) % 2 = 1}, c>>
+CondOf(j) == {ParOdd(j[k][1], j[k][2]) : k \in 1..Len(j)}
+SfFun(o) == [e \in {CondOf(o.sf[i].cond) : i \in 1..Len(o.sf)} |-> ScFromAbs(o.sf[CHOOSE i \in 1..Len(o.sf) : CondOf(o.sf[i].cond) = e].sc)]
+GetOK(o, r) == r.has = (CondOf(r.cond) \in DOMAIN SfFun(o)) /\ (r.has => ScFromAbs(r.sc) = SfFun(o)[CondOf(r.cond)])
+CompsOf(o) ==
+  LET rep == ClassRep([vs |-> Names(o)], {{t[1], t[2]} : t \in EdgeSet(o)})
+  IN {{v \in Names(o) : rep[v] = r} : r \in {rep[v] : v \in Names(o)}}
+BitSet(m) == {<<m.bits[i][1], m.bits[i][2]>> : i \in 1..Len(m.bits)}
+ConnPairs(o) == {<<t[1], t[2]>> : t \in AdjTriples(o)}
+InvOKx(o) ==
+  LET x == o.x  n == Len(o.verts) IN
+  \* vertex_type_opt / phase / vars / coord, vertex_data_opt, phase_and_vars give the data vertex_data gives
+  /\ x.verts2 = o.verts /\ x.verts3 = o.verts
+  /\ Len(x.pv) = n /\ \A i \in 1..n : x.pv[i] = [name |-> o.verts[i].name, ph |-> o.verts[i].ph, vars |-> o.verts[i].vars, vc |-> o.verts[i].vc]
+  \* the Option-returning queries answer Some exactly on live names / existing edges (names up to beyond the index range were asked)
+  /\ x.vdo = o.contains /\ x.vto = o.contains
+  /\ {<<x.eto[i][1], x.eto[i][2], x.eto[i][3]>> : i \in 1..Len(x.eto)} = AdjTriples(o) /\ Len(x.eto) = 2 * Len(o.edges)
+  /\ Len(x.nb) = n /\ \A i \in 1..n : x.nb[i].v = o.adj[i].v /\ x.nb[i].nbv = o.adj[i].nbrs /\ x.nb[i].iev = o.adj[i].inc
+  \* component_vertices: the partition into connected components
+  /\ {ToSet(x.comps[i]) : i \in 1..Len(x.comps)} = CompsOf(o) /\ Len(x.comps) = Cardinality(CompsOf(o))
+  /\ \A i \in 1..Len(x.comps) : Distinct(x.comps[i])
+  \* depth: the largest row (the row holds the tag); what it answers on the empty graph is not specified (both backends alike: SameAnswers)
+  /\ (n > 0 => x.depth = Max({o.verts[i].tag : i \in 1..n}))
+  \* adjacency_matrix(None): square over all vertices in the order of vertices(); (Some(list)): in the order of the list
+  /\ x.am.rows = n /\ x.am.cols = n /\ Len(x.am.order) = n /\ ToSet(x.am.order) = Names(o) /\ Len(x.am.bits) = Cardinality(BitSet(x.am))
+  /\ {<<x.am.order[b[1] + 1], x.am.order[b[2] + 1]>> : b \in BitSet(x.am)} = ConnPairs(o)
+  /\ x.ams.rows = Len(x.ams.list) /\ x.ams.cols = Len(x.ams.list) /\ Len(x.ams.bits) = Cardinality(BitSet(x.ams))
+  /\ BitSet(x.ams) = {<<i - 1, j - 1>> : <<i, j>> \in {p \in (1..Len(x.ams.list)) \X (1..Len(x.ams.list)) : <<x.ams.list[p[1]], x.ams.list[p[2]]>> \in ConnPairs(o)}}
+  \* get_scalar_factor: Some with the enumerated value exactly on the enumerated conditions
+  /\ Len(x.gsf) = Len(o.sf) /\ \A i \in 1..Len(x.gsf) : x.gsf[i].has /\ GetOK(o, x.gsf[i])
+  /\ {CondOf(x.gsf[i].cond) : i \in 1..Len(x.gsf)} = DOMAIN SfFun(o)
+  /\ \A i \in 1..Len(x.probes) : GetOK(o, x.probes[i])
+  \* vec_graph::Graph::neighbor_at(v, 0..degree) walks the neighbours
+  /\ (Has(x, "nat") => Len(x.nat) = n /\ \A i \in 1..n : Len(x.nat[i]) = o.adj[i].deg /\ ToSet(x.nat[i]) = ToSet(o.adj[i].nbrs))
+
 \* ---------- renaming to tag space ----------
 TagOf(o, n) == o.verts[CHOOSE i \in 1..Len(o.verts) : o.verts[i].name = n].tag
 TagOrDead(o, n) == IF n \in Names(o) THEN TagOf(o, n) ELSE -1
@@ -55,20 +102,113 @@ TagObs(o) ==
   [vs |-> tags,
    ty |-> [t \in tags |-> VRec(o, t).ty],
    ph |-> [t \in tags |-> PhU(VRec(o, t).ph)],
-   vr |-> [t \in tags |-> ParFromAbs(VRec(o, t).vars, VRec(o, t).vc)],
+   vr |-> [t \in tags |-> ParOdd(VRec(o, t).vars, VRec(o, t).vc)],
    et |-> [e \in {{TagOf(o, x[1]), TagOf(o, x[2])} : x \in EdgeSet(o)} |->
              (CHOOSE x \in EdgeSet(o) : {TagOf(o, x[1]), TagOf(o, x[2])} = e)[3]],
    ins |-> [k \in 1..Len(o.ins) |-> TagOrDead(o, o.ins[k])],
    outs |-> [k \in 1..Len(o.outs) |-> TagOrDead(o, o.outs[k])],
    sc |-> ScFromAbs(o.sc),
-   sf |-> [e \in {{ParFromAbs(o.sf[i].cond[k][1], o.sf[i].cond[k][2]) : k \in 1..Len(o.sf[i].cond)} : i \in 1..Len(o.sf)} |->
-             ScFromAbs(o.sf[CHOOSE i \in 1..Len(o.sf) : {ParFromAbs(o.sf[i].cond[k][1], o.sf[i].cond[k][2]) : k \in 1..Len(o.sf[i].cond)} = e].sc)]]
+   sf |-> SfFun(o)]
 TagCrd(o) == [t \in {o.verts[i].tag : i \in 1..Len(o.verts)} |-> VRec(o, t).q]
 
 \* ---------- the abstract model: ZXGraph operators on tags ----------
 Par(vs) == <<ToSet(vs), FALSE>>
+\* the parity denoted by a described construction (harness: mk_par): every constructor / operator of params.rs
+POneC == <<{}, TRUE>>
+RECURSIVE PM(_)
+PM(pc) == CASE pc.how = "new" -> ParOdd(pc.vars, pc.c)
+            [] pc.how = "from_vec" -> ParOdd(pc.vars, FALSE)
+            [] pc.how = "single" -> <<{pc.v}, FALSE>>
+            [] pc.how = "one" -> POneC
+            [] pc.how = "zero" -> PZero
+            [] pc.how = "neg" -> LET p == PM(pc.of) IN <<p[1], ~p[2]>>
+            [] pc.how \in {"sum", "sum_owned"} -> PXor(PM(pc.a), PM(pc.b))
+\* Expr::quadratic (params.rs:161-173) on canonical parities: equal conjuncts collapse, a constant-1 conjunct is dropped unless the
+\* other one is the constant 0 (then it sorts first and nothing is dropped)
+QuadCode(p, q) == IF p = q THEN {p} ELSE IF POneC \in {p, q} /\ PZero \notin {p, q} THEN {p, q} \ {POneC} ELSE {p, q}
+OpPar(op) == IF Has(op, "pc") THEN PM(op.pc) ELSE Par(op.vars)
+OpCond(op) == IF Has(op, "pc2") THEN QuadCode(PM(op.pc), PM(op.pc2)) ELSE Lin(OpPar(op))
+\* --ext operations: transcriptions of spec/Compose.tla / ZXGraph.tla applied in tag space
+XOps == {"init", "par_alg", "add_bnd", "add_vph", "push_input", "bnd_remove", "adjoint", "x_to_z", "plug_vertex", "plug_input", "plug_output",
+         "plug_inputs", "plug_outputs", "make_bipartite", "copy", "append_x", "plug_x"}
+DropAt(s, i) == SubSeq(s, 1, i) \o SubSeq(s, i + 2, Len(s))            \* Vec::remove(i), i counted from 0
+CrdOn(vs, c) == [t \in vs |-> IF t \in DOMAIN c THEN c[t] ELSE 0]
+OtherT(op) ==
+  LET h == FromAbs(op.other)
+      r(v) == op.other.v[CHOOSE i \in 1..Len(op.other.v) : op.other.v[i].id = v].r
+  IN Rename(h, [v \in h.vs |-> r(v)])
+\* a Z-basis element needs "the" neighbour of the plugged vertex
+CanPlug(g, v, b) == v \in g.vs /\ (BIsZ(b) => Nbrs(g, v) # {})
+PlugListOK(g, bnds, plug) == Len(plug) <= Len(bnds) /\ \A k \in 1..Len(plug) : CanPlug(g, bnds[k], plug[k])
+AppendTag(off) ==
+  LET m == [t \in a.vs |-> t + off]
+      b == Rename(a, m) IN
+  [g |-> [a EXCEPT !.vs = a.vs \cup b.vs, !.ty = b.ty @@ a.ty, !.ph = b.ph @@ a.ph, !.vr = b.vr @@ a.vr,
+                   !.et = b.et @@ a.et, !.sc = RMul(a.sc, a.sc)],
+   c |-> [t \in b.vs |-> crd[t - off]] @@ crd, panic |-> FALSE,
+   \* once append_graph takes over other's conditional factors (work/gC_fix_1.diff) every factor is multiplied by itself
+   alt |-> [a EXCEPT !.vs = a.vs \cup b.vs, !.ty = b.ty @@ a.ty, !.ph = b.ph @@ a.ph, !.vr = b.vr @@ a.vr,
+                     !.et = b.et @@ a.et, !.sc = RMul(a.sc, a.sc), !.sf = MergeSF(a.sf, a.sf)]]
+ModelStepX(op) ==
+  LET o == op.op
+      ok(g) == [g |-> g, c |-> CrdOn(g.vs, crd), panic |-> FALSE]
+      bad == [g |-> a, c |-> crd, panic |-> TRUE]
+  IN
+  CASE o = "add_bnd" -> LET g1 == SetET(AddV(a, op.tag, "B", 0), op.tag, op.s, op.et) IN
+                        ok(IF op.side = "in" THEN [g1 EXCEPT !.ins = Append(@, op.tag)] ELSE [g1 EXCEPT !.outs = Append(@, op.tag)])
+    [] o = "add_vph" -> ok(AddV(a, op.tag, op.ty, op.ph))
+    [] o = "push_input" -> ok([a EXCEPT !.ins = Append(@, op.t)])
+    [] o = "bnd_remove" -> ok(IF op.side = "in" THEN [a EXCEPT !.ins = DropAt(@, op.i)] ELSE [a EXCEPT !.outs = DropAt(@, op.i)])
+    \* alt: once adjoint conjugates the conditional factors (work/gC_fix_2.diff)
+    [] o = "adjoint" -> [g |-> Adjoint(a), c |-> crd, panic |-> FALSE, alt |-> AdjointFull(a)]
+    [] o = "x_to_z" -> ok(XToZ(a))
+    [] o = "plug_vertex" -> IF CanPlug(a, op.t, op.b) THEN ok(PlugVertex(a, op.t, op.b)) ELSE bad
+    [] o = "plug_output" -> IF op.i < Len(a.outs) /\ CanPlug(a, a.outs[op.i + 1], op.b)
+                            THEN ok(MulSc([PlugVertex(a, a.outs[op.i + 1], op.b) EXCEPT !.outs = DropAt(@, op.i)], Sqrt2Pow(-1))) ELSE bad
+    [] o = "plug_input" -> IF op.i < Len(a.ins) /\ CanPlug(a, a.ins[op.i + 1], op.b)
+                           THEN ok(MulSc([PlugVertex(a, a.ins[op.i + 1], op.b) EXCEPT !.ins = DropAt(@, op.i)], Sqrt2Pow(-1))) ELSE bad
+    [] o = "plug_outputs" -> IF PlugListOK(a, a.outs, op.list) THEN ok(PlugOutputs(a, op.list)) ELSE bad
+    [] o = "plug_inputs" -> IF PlugListOK(a, a.ins, op.list) THEN ok(PlugInputs(a, op.list)) ELSE bad
+    [] o = "make_bipartite" ->
+         LET nm == [e \in {{op.newtags[i][1], op.newtags[i][2]} : i \in 1..Len(op.newtags)} |->
+                      op.newtags[CHOOSE i \in 1..Len(op.newtags) : {op.newtags[i][1], op.newtags[i][2]} = e][3]]
+         IN IF DOMAIN nm # SameColour(a) THEN bad
+            ELSE [g |-> BipartiteNamed(a, nm),
+                  c |-> [t \in {nm[e] : e \in DOMAIN nm} |-> (crd[Min(CHOOSE e \in DOMAIN nm : nm[e] = t)] + crd[Max(CHOOSE e \in DOMAIN nm : nm[e] = t)]) \div 2] @@ crd,
+                  panic |-> FALSE]
+    [] o = "append_x" -> AppendTag(op.off)
+    [] o = "plug_x" -> LET h == OtherT(op)
+                           r == PlugNamed(a, h, [v \in h.vs |-> v])
+                       IN IF h.vs \cap a.vs # {} THEN bad ELSE [g |-> r.g, c |-> CrdOn(r.g.vs, crd), panic |-> r.panic]
+    [] OTHER -> [g |-> a, c |-> crd, panic |-> FALSE]      \* init, par_alg, copy: no change
+\* copy(adjoint): vertices, data and edges as the transcription CopyCode says, consecutive names ("The copy will have consecutive
+\* vertex indices"), coordinates kept
+\* (the copy as the code makes it today, or complete as documented - work/gC_fix_3.diff -, with or without conjugated factors)
+CopyOK(op, sub) == /\ TagObs(sub) \in {CopyCode(a, op.adj), IF op.adj THEN Adjoint(a) ELSE a, CopySpec(a, op.adj)}
+                   /\ InvOK(sub) /\ Names(sub) = 0..(sub.numv - 1) /\ TagCrd(sub) = crd
+\* the pure Parity / Expr interface (harness: par_alg)
+VarsSorted(s) == \A i \in 1..(Len(s) - 1) : s[i] <= s[i + 1]
+VarsStrict(s) == \A i \in 1..(Len(s) - 1) : s[i] < s[i + 1]
+PMr(x) == ParOdd(x.vars, x.c)
+Sigs4 == [0..3 -> BOOLEAN]
+\* both addition operators (&a + &b, a + b) denote the XOR
+ParSumOK(r) == PMr(r.sum_ref) = PXor(PMr(r.a), PMr(r.b)) /\ PMr(r.sum_own) = PMr(r.sum_ref)
+ParAlgOK(r) ==
+  /\ ((VarsSorted(r.a.vars) /\ VarsSorted(r.b.vars)) => ParSumOK(r))             \* merge-XOR presupposes the documented invariant "kept sorted"
+  /\ PMr(r.neg) = <<PMr(r.a)[1], ~r.a.c>>
+  \* len / is_empty / is_one / is_zero / Index describe the stored list (iter) and constant
+  /\ r.len = Len(r.a.vars) /\ r.empty = (Len(r.a.vars) = 0) /\ r.is_one = (Len(r.a.vars) = 0 /\ r.a.c) /\ r.is_zero = (Len(r.a.vars) = 0 /\ ~r.a.c)
+  /\ r.idx = r.a.vars
+  \* Expr::len / is_linear / is_empty / Index describe the stored conjuncts (iter)
+  /\ r.lin_len = Len(r.lin) /\ r.lin_is_linear = (r.lin_len = 1) /\ r.lin_empty = (r.lin_len = 0)
+  /\ r.quad_len = Len(r.quad) /\ r.quad_is_linear = (r.quad_len = 1) /\ Len(r.quad_idx) = Len(r.quad)
+  /\ \A k \in 1..Len(r.quad) : r.quad_idx[k].vars = r.quad[k][1] /\ r.quad_idx[k].c = r.quad[k][2]
+  \* a conjunction of XORs: under every assignment linear(a) holds iff a is odd, quadratic(a, b) iff both are
+  /\ \A sig \in Sigs4 : /\ EEval(CondOf(r.lin), sig) = PEval(PMr(r.a), sig)
+                         /\ EEval(CondOf(r.quad), sig) = (PEval(PMr(r.a), sig) /\ PEval(PMr(r.b), sig))
 ModelStep(op) ==
   LET o == op.op IN
+  IF o \in XOps THEN ModelStepX(op) ELSE
   CASE o = "add_vertex"    -> [g |-> AddV(a, op.tag, op.ty, 0), c |-> (op.tag :> 0) @@ crd, panic |-> FALSE]
     [] o = "add_with_data" -> [g |-> AddPar(AddV(a, op.tag, op.ty, op.ph), op.tag, Par(op.vars)), c |-> (op.tag :> op.q) @@ crd, panic |-> FALSE]
     [] o = "add_named"     -> [g |-> AddV(a, op.tag, "Z", 0), c |-> (op.tag :> 0) @@ crd, panic |-> FALSE]     \* when it succeeds
@@ -81,21 +221,24 @@ ModelStep(op) ==
     [] o = "set_type"      -> [g |-> [a EXCEPT !.ty[op.t] = op.ty], c |-> crd, panic |-> FALSE]
     [] o = "set_phase"     -> [g |-> SetPh(a, op.t, op.ph), c |-> crd, panic |-> FALSE]
     [] o = "add_to_phase"  -> [g |-> AddPh(a, op.t, op.ph), c |-> crd, panic |-> FALSE]
-    [] o = "set_vars"      -> [g |-> [a EXCEPT !.vr[op.t] = Par(op.vars)], c |-> crd, panic |-> FALSE]
-    [] o = "add_to_vars"   -> [g |-> AddPar(a, op.t, Par(op.vars)), c |-> crd, panic |-> FALSE]
+    [] o = "set_vars"      -> [g |-> [a EXCEPT !.vr[op.t] = OpPar(op)], c |-> crd, panic |-> FALSE]
+    [] o = "add_to_vars"   -> [g |-> AddPar(a, op.t, OpPar(op)), c |-> crd, panic |-> FALSE]
     [] o \in {"set_qubit", "set_coord"} -> [g |-> a, c |-> [crd EXCEPT ![op.t] = op.q], panic |-> FALSE]
     [] o = "set_inputs"    -> [g |-> [a EXCEPT !.ins = op.ts], c |-> crd, panic |-> FALSE]
     [] o = "set_outputs"   -> [g |-> [a EXCEPT !.outs = op.ts], c |-> crd, panic |-> FALSE]
     [] o = "push_output"   -> [g |-> [a EXCEPT !.outs = Append(@, op.t)], c |-> crd, panic |-> FALSE]
     [] o = "mul_sqrt2"     -> [g |-> MulSc(a, Sqrt2Pow(op.p)), c |-> crd, panic |-> FALSE]
     [] o = "mul_phase"     -> [g |-> MulSc(a, Omega(op.ph)), c |-> crd, panic |-> FALSE]
-    [] o = "mul_sf"        -> [g |-> MulSF(a, Lin(Par(op.vars)), Omega(op.ph)), c |-> crd, panic |-> FALSE]
+    [] o = "mul_sf"        -> [g |-> MulSF(a, OpCond(op), Omega(op.ph)), c |-> crd, panic |-> FALSE]
     [] o = "append_self"   ->
          LET m == [t \in a.vs |-> t + op.off]
              b == Rename(a, m) IN
          [g |-> [a EXCEPT !.vs = a.vs \cup b.vs, !.ty = b.ty @@ a.ty, !.ph = b.ph @@ a.ph, !.vr = b.vr @@ a.vr,
                           !.et = b.et @@ a.et, !.sc = RMul(a.sc, a.sc)],
-          c |-> [t \in b.vs |-> crd[t - op.off]] @@ crd, panic |-> FALSE]
+          c |-> [t \in b.vs |-> crd[t - op.off]] @@ crd, panic |-> FALSE,
+          \* once append_graph takes over other's conditional factors (work/gC_fix_1.diff) every factor is multiplied by itself
+          alt |-> [a EXCEPT !.vs = a.vs \cup b.vs, !.ty = b.ty @@ a.ty, !.ph = b.ph @@ a.ph, !.vr = b.vr @@ a.vr,
+                            !.et = b.et @@ a.et, !.sc = RMul(a.sc, a.sc), !.sf = MergeSF(a.sf, a.sf)]]
     [] OTHER -> [g |-> a, c |-> crd, panic |-> FALSE]      \* pack, clone_aside, subgraph: no change
 \* the sub-graph on the listed tags: data and induced edges only
 SubModel(ts) == [EmptyG EXCEPT !.vs = ToSet(ts), !.ty = [t \in ToSet(ts) |-> a.ty[t]], !.ph = [t \in ToSet(ts) |-> a.ph[t]],
@@ -107,8 +250,14 @@ SubModel(ts) == [EmptyG EXCEPT !.vs = ToSet(ts), !.ty = [t \in ToSet(ts) |-> a.t
 DropName(s, x) == SelectSeq(s, LAMBDA y : y # x)
 RECURSIVE PopN(_, _)
 PopN(s, n) == IF n = 0 \/ s = <<>> THEN s ELSE PopN(Front(s), n - 1)
+\* after plug_x (vertices appended, then removed pairwise) the stack is not predicted any more until the next compaction
+HolesUnknown == <<-1>>
 HolesAfter(op, ov) ==
-  CASE op.op \in {"add_vertex", "add_with_data"} -> IF holes # <<>> THEN Front(holes) ELSE holes
+  IF holes = HolesUnknown THEN (IF op.op = "pack" /\ (op.force \/ (pvi - Cardinality(DOMAIN pv)) * 10 > pvi) THEN <<>> ELSE HolesUnknown) ELSE
+  CASE op.op \in {"add_vertex", "add_with_data", "add_bnd", "add_vph"} -> IF holes # <<>> THEN Front(holes) ELSE holes
+    [] op.op = "make_bipartite" -> PopN(holes, Len(op.newtags))
+    [] op.op = "append_x" -> PopN(holes, Cardinality(a.vs))
+    [] op.op = "plug_x" -> HolesUnknown
     [] op.op = "remove_vertex" -> Append(holes, pv[op.t])
     [] op.op = "add_named" -> IF op.name < pvi THEN DropName(holes, op.name) ELSE holes \o [i \in 1..(op.name - pvi) |-> pvi + i - 1]
     [] op.op = "pack" -> IF op.force \/ Len(holes) * 10 > pvi THEN <<>> ELSE holes
@@ -118,7 +267,8 @@ HolesAfter(op, ov) ==
 Step(e) ==
   CASE e.k = "begin" ->
          /\ a' = EmptyG /\ crd' = <<>> /\ holes' = <<>> /\ freshv' = 0 /\ pv' = <<>> /\ pvi' = 0 /\ asides' = <<>>
-         /\ stats' = [stats EXCEPT !.histories = @ + 1] /\ UNCHANGED <<viol, drift>>
+         /\ stats' = [stats EXCEPT !.histories = @ + 1, !.from_default = @ + (IF Has(e, "ctor") /\ e.ctor = "default" THEN 1 ELSE 0)]
+         /\ UNCHANGED <<viol, drift>>
     [] e.k = "op" ->
          IF Has(e, "obs_panic") THEN
            viol' = Append(viol, <<l, "NoPanic", "observation">>) /\ UNCHANGED <<a, crd, holes, freshv, pv, pvi, asides, drift, stats>>
@@ -128,11 +278,12 @@ Step(e) ==
              \* expected outcome: named insertion fails exactly on a live name; smart insertion panics as the model says
              expect == IF op.op = "add_named" THEN e.rv.res ELSE IF m.panic THEN "panic" ELSE "ok"
              applied == e.rv.res = "ok"
-             a2 == IF applied THEN m.g ELSE a
-             c2 == IF applied THEN m.c ELSE crd
-             same == e.rv.res = e.rh.res /\ e.rv.res = expect
              tv == TagObs(e.ov)
              th == TagObs(e.oh)
+             \* operations whose treatment of the conditional scalar factors has a prepared fix: either variant is the model
+             a2 == IF applied THEN (IF Has(m, "alt") /\ tv = m.alt THEN m.alt ELSE m.g) ELSE a
+             c2 == IF applied THEN m.c ELSE crd
+             same == e.rv.res = e.rh.res /\ e.rv.res = expect
              refines == tv = a2 /\ th = a2 /\ TagCrd(e.ov) = c2 /\ TagCrd(e.oh) = c2
              inv1 == InvOK(e.ov)
              inv2 == InvOK(e.oh)
@@ -140,21 +291,43 @@ Step(e) ==
                       (LET sv == TagObs(e.rv.sub)  sh == TagObs(e.rh.sub) IN
                        sv = SubModel(op.ts) /\ sh = SubModel(op.ts) /\ InvOK(e.rv.sub) /\ InvOK(e.rh.sub))
              \* L1: allocator transcription (vector backend: last freed name first, else the table length; hash: fresh counter)
-             alloc == op.op \in {"add_vertex", "add_with_data"}
+             alloc == op.op \in {"add_vertex", "add_with_data", "add_bnd", "add_vph"}
              predv == IF holes # <<>> THEN Last(holes) ELSE e.ov.vindex - 1
-             nameok == ~alloc \/ ~applied \/ (e.rv.name = predv /\ e.rh.name = freshv)
+             nameok == ~alloc \/ ~applied \/ (e.rh.name = freshv /\ (holes = HolesUnknown \/ e.rv.name = predv))
+             \* --ext
+             ext == Has(e.ov, "x")
+             invx1 == ~ext \/ InvOKx(e.ov)
+             invx2 == ~ext \/ InvOKx(e.oh)
+             xsame == ~ext \/ e.ov.x.depth = e.oh.x.depth
+             copyok == op.op # "copy" \/ ~applied \/ (CopyOK(op, e.rv.sub) /\ CopyOK(op, e.rh.sub))
+             getok == ~(op.op = "mul_sf" /\ Has(e.rv, "gsf")) \/ ~applied \/
+                      (\A r \in {e.rv.gsf, e.rh.gsf} : r.has /\ CondOf(r.cond) = OpCond(op) /\ ScFromAbs(r.sc) = a2.sf[OpCond(op)])
+             isalg == op.op = "par_alg" /\ applied
+             algok == ~isalg \/ (ParAlgOK(e.rv) /\ e.rh = e.rv)
+             algsorted == isalg /\ VarsSorted(e.rv.a.vars) /\ VarsSorted(e.rv.b.vars)
+             algnf == ~isalg \/ ~(VarsStrict(e.rv.a.vars) /\ VarsStrict(e.rv.b.vars)) \/ VarsStrict(e.rv.sum_ref.vars)
          IN /\ a' = a2 /\ crd' = c2
             /\ viol' = (IF inv1 THEN <<>> ELSE <<<<l, "InvOK", "vec", op.op>>>>) \o (IF inv2 THEN <<>> ELSE <<<<l, "InvOK", "hash", op.op>>>>)
                        \o (IF same THEN <<>> ELSE <<<<l, "SameOutcome", op.op>>>>) \o (IF refines THEN <<>> ELSE <<<<l, "Refines", op.op>>>>)
-                       \o (IF subok THEN <<>> ELSE <<<<l, "SubgraphOK">>>>) \o viol
-            /\ drift' = IF nameok THEN drift ELSE Append(drift, <<l, "AllocatorName", op.op>>)
+                       \o (IF subok THEN <<>> ELSE <<<<l, "SubgraphOK">>>>)
+                       \o (IF invx1 THEN <<>> ELSE <<<<l, "InvOKx", "vec", op.op>>>>) \o (IF invx2 THEN <<>> ELSE <<<<l, "InvOKx", "hash", op.op>>>>)
+                       \o (IF xsame THEN <<>> ELSE <<<<l, "SameAnswers", "depth">>>>)
+                       \o (IF copyok THEN <<>> ELSE <<<<l, "CopyOK">>>>) \o (IF getok THEN <<>> ELSE <<<<l, "GetSFOK">>>>)
+                       \o (IF algok THEN <<>> ELSE <<<<l, "ParAlgOK">>>>) \o viol
+            /\ drift' = (IF nameok THEN <<>> ELSE <<<<l, "AllocatorName", op.op>>>>) \o (IF algnf THEN <<>> ELSE <<<<l, "ParityNormalForm">>>>) \o drift
             /\ holes' = IF applied THEN HolesAfter(op, e.ov) ELSE holes
             /\ pv' = [t \in {e.ov.verts[i].tag : i \in 1..Len(e.ov.verts)} |-> VRec(e.ov, t).name] /\ pvi' = e.ov.vindex
             /\ freshv' = e.oh.vindex
             /\ asides' = IF op.op = "clone_aside" /\ applied THEN Append(asides, <<e.ov, e.oh>>) ELSE asides
             /\ stats' = [stats EXCEPT !.ops = @ + 1, !.nontrivial = @ + (IF a2 # a THEN 1 ELSE 0),
                                       !.packs = @ + (IF op.op = "pack" THEN 1 ELSE 0),
-                                      !.names_predicted = @ + (IF alloc /\ applied /\ nameok THEN 1 ELSE 0)]
+                                      !.names_predicted = @ + (IF alloc /\ applied /\ nameok /\ holes # HolesUnknown THEN 1 ELSE 0),
+                                      !.xobs = @ + (IF ext THEN 2 ELSE 0),
+                                      !.ext_ops = @ + (IF op.op \in XOps \/ Has(op, "pc") THEN 1 ELSE 0),
+                                      !.plugs = @ + (IF op.op = "plug_x" /\ applied /\ Len(op.other.ins) > 0 THEN 1 ELSE 0),
+                                      !.par_algs = @ + (IF isalg THEN 1 ELSE 0),
+                                      !.par_unsorted = @ + (IF isalg /\ ~algsorted THEN 1 ELSE 0),
+                                      !.par_unsorted_wrong = @ + (IF isalg /\ ~algsorted /\ ~ParSumOK(e.rv) THEN 1 ELSE 0)]
     [] e.k = "aside" ->
          /\ viol' = IF e.i <= Len(asides) /\ asides[e.i] = <<e.ov, e.oh>> THEN viol ELSE Append(viol, <<l, "CloneIndependent">>)
          /\ UNCHANGED <<a, crd, holes, freshv, pv, pvi, asides, drift, stats>>
